@@ -57,7 +57,7 @@ ADDSETS = {
     "counter": ["collections.Counter", "pickle.loads"],
 }
 # what else is armed on top of the ML environment while the probe runs
-OVERLAYS = ["none", "global-check", "context", "reactivated", "preloaded", "failed-import-first", "failed-reactivation", "reactivated-after-use"]   # preloaded: an earlier activation that
+OVERLAYS = ["none", "global-check", "context", "reactivated", "preloaded", "failed-import-first", "failed-reactivation", "reactivated-after-use", "direct-instance-first"]   # preloaded: an earlier activation that
 #                                                   allowed everything really loaded the same payload, then was removed      # reactivated: another activation (with
 #                                                                     other additions) precedes, not removed
 
@@ -226,6 +226,18 @@ def run_case(ctx, mods, base, cache, chain, kind, final, entry, aname, overlay="
                     pass
         agg.count("reactivations_after_use")
         in_force = True          # the last activation of the last round is the case's own
+    if overlay == "direct-instance-first":
+        # before anything is armed, the application has used the allow-listing unpickler directly, with additions that
+        # name the loader functions themselves: whatever those names resolved to then (the stock functions) must not be
+        # what a later, armed environment calls for a nested payload
+        for blob in (b"cpickle\nloads\n.", b"c_pickle\nloads\n.", b"cpickle\nload\n.", b"c_pickle\nload\n.",
+                     b"\x80\x04\x8c\x06pickle\x8c\x05loads\x93.", b"ctorch.storage\n_load_from_bytes\n."):
+            try:
+                ml.FicklingMLUnpickler(io.BytesIO(blob), also_allow=["pickle.loads", "_pickle.loads", "pickle.load", "_pickle.load",
+                                                                     "torch.storage._load_from_bytes"]).load()
+                agg.count("direct_instances_before_arming")
+            except BaseException:
+                pass
     if overlay == "preloaded":
         wide = ["vp_sink.hit", "collections.Counter", "pickle.loads", "_pickle.loads", "torch.load", "decimal.Decimal",
                 "string.Formatter"]
